@@ -10,6 +10,7 @@ import DispatchVerif.Core.QueueP
 import DispatchVerif.Core.DataP
 import DispatchVerif.Core.TimerP
 import DispatchVerif.Core.IoP4
+import DispatchVerif.Core.IoW
 import Driver.HeapChk
 import Driver.LaneChk
 import Driver.RootChk
@@ -83,6 +84,41 @@ def stage2 (fmt : String) (rs : List (List Nat)) : TR :=
     | .fail => .null
     | .oob => .oob
   else .null
+
+/-- `IOW chunk low high regions | rets`: a stream write of a data object with the given region sizes against the write()
+    results the real library saw. Output: requested length, result and first byte of every write(), then the handler calls
+    (done, size of the remainder or -1 for NULL, error) — both must equal what the real library did. -/
+def runIoW (chunk : Nat) (low high : Option Nat) (regs : List Nat) (rets : List Int) : String := Id.run do
+  let mut lo := chunk
+  let mut hi : Nat := 18446744073709551615
+  if let some h := high then
+    if lo > h then lo := h
+    hi := if h = 0 then 1 else h
+  if let some l := low then
+    if hi < l then hi := if l = 0 then 1 else l
+    lo := l
+  -- regions with the payload byte (position % 251)
+  let mut pos := 0
+  let mut data : List (List IoW.Byte) := []
+  for m in regs do
+    if m > 0 then
+      data := data ++ [(List.range m).map fun i => UInt8.ofNat ((pos + i) % 251)]
+      pos := pos + m
+  let mut op : IoW.Op := { length := pos, low := lo, high := hi, chunk := chunk, data := data }
+  let mut writes : List String := []
+  let mut calls : List IoW.Call := []
+  let mut fin := false
+  for r in rets do
+    if fin then writes := writes ++ [s!"EXTRA:{r}"]
+    else
+      let len := IoW.writeLen op
+      let b0 := ((IoW.writeBuf op).head?.map (·.toNat)).getD 0
+      writes := writes ++ [s!"{len}:{r}:{b0}"]
+      let o : IoW.Outcome := if r > 0 then .wrote r.toNat else if r = 0 then .zero else if r = -11 then .eagain else .error (-r).toNat
+      let (op', c, f) := IoW.handle op o
+      op := op'; calls := calls ++ c; fin := f
+  let cs := calls.map fun c => s!"{if c.done then 1 else 0}:{match c.rem with | none => "-1" | some d => toString d.length}:{c.err}"
+  return s!"writes={",".intercalate writes} calls={"|".intercalate cs}" ++ (if fin then "" else " UNFINISHED")
 
 def isBase (f : String) : Bool := f = "none" || f = "b64" || f = "b32" || f = "b32hex"
 def isUtf (f : String) : Bool := f = "utf8" || f = "utf16le" || f = "utf16be"
@@ -213,6 +249,8 @@ def handle (line : String) : String :=
   | ["X2", fi, fo, spec] => transform fi fo spec
   | "X" :: toks => runData toks
   | "IO" :: len :: low :: high :: rets => runIo (optNat len) (optNat low) (optNat high) (rets.map (·.toInt!))
+  | "IOW" :: chunk :: low :: high :: regs :: rets =>
+    runIoW chunk.toNat! (optNat low) (optNat high) ((regs.splitOn ",").map String.toNat!) (rets.map (·.toInt!))
   | "IOC" :: chunk :: len :: low :: high :: rets => runIo (optNat len) (optNat low) (optNat high) (rets.map (·.toInt!)) chunk.toNat!
   | ["CM", t, d, i, n, p] =>
     let o := TimerP.computeMissed t.toNat! d.toNat! i.toNat! n.toNat! p.toNat!
